@@ -79,11 +79,13 @@ func VfH_C06_iter() {
 // multi-pass over class arrays, branch-free.
 func vfGraphemeRef(text []rune) []bool {
 	n := len(text)
-	is := func(i int, c *ucdTable) bool { return ucd.LookupGraphemeBreakClass(text[i]) == c }
+	graphemeClass := make([]*ucdTable, n) // one table lookup per position
 	pic := make([]bool, n)
 	for i := range text {
+		graphemeClass[i] = ucd.LookupGraphemeBreakClass(text[i])
 		pic[i] = vfIsPic(text[i])
 	}
+	is := func(i int, c *ucdTable) bool { return graphemeClass[i] == c }
 	out := make([]bool, n+1)
 	out[0], out[n] = true, true
 	// state for GB11 (ExtPict Extend* ZWJ x ExtPict) and GB12/13 (RI pairs), as prefix scans
